@@ -407,6 +407,7 @@ func (in *Interp) runPath(fn *ssa.Function, prefix []int) (kind, msg string) {
 	in.specDepth = 0
 	in.pathNotes = nil
 	in.lastClock = nil
+	in.clockTicks = 0
 	in.concPos = 0
 	in.model = nil
 	in.concChoice = 0
